@@ -173,6 +173,11 @@ Definition bind_table (c : cfg) (x : Z) (t : list (Z * nat)) : list (Z * nat) :=
 Definition unbind_table (c : cfg) (x : Z) (t : list (Z * nat)) : list (Z * nat) :=
   if f_unbind c then match f_table c with TShared => [(0, 0%nat)] | _ => tremove x t end else t.
 
+(* jitter buffer Close: buffer.Clear(true), like its Unbind; the per-SSRC maps are left alone by Close
+   (the nack responder empties its map, which no later call can observe differently from a fresh Bind) *)
+Definition close_table (c : cfg) (t : list (Z * nat)) : list (Z * nat) :=
+  match f_table c with TShared => if f_unbind c then [(0, 0%nat)] else t | _ => t end.
+
 Definition send_or_park (c : cfg) (s : st) (t : nat) (x : Z) (is_bind : bool) (fl : bool) : st :=
   match do_send c s x fl with
   | Some s' => s'
@@ -204,12 +209,12 @@ Definition call (c : cfg) (s : st) (t : nat) (o : op) : st :=
       match f_site c with SendOnTraffic => send_or_park c s1 t x false true | _ => s1 end
   | OClose =>
       let pan := match f_close c with CloseRaw => closed s | CloseIdem => false end in
-      if pan then mkSt true (close_ret s) (loops s) (next_lid s) (chanq s) (table s) (dead s) (blocked s) true
+      if pan then mkSt true (close_ret s) (loops s) (next_lid s) (chanq s) (close_table c (table s)) (dead s) (blocked s) true
                        (emitted s) (late_close s) (late_unbind s)
       else if f_wg c && negb (match loops s with [] => true | _ => false end)
-      then mkSt true (close_ret s) (loops s) (next_lid s) (chanq s) (table s) (dead s) ((t, WWg) :: blocked s)
+      then mkSt true (close_ret s) (loops s) (next_lid s) (chanq s) (close_table c (table s)) (dead s) ((t, WWg) :: blocked s)
                 (panicked s) (emitted s) (late_close s) (late_unbind s)
-      else mkSt true true (loops s) (next_lid s) (chanq s) (table s) (dead s) (blocked s)
+      else mkSt true true (loops s) (next_lid s) (chanq s) (close_table c (table s)) (dead s) (blocked s)
                 (panicked s) (emitted s) (late_close s) (late_unbind s)
   end.
 
@@ -300,11 +305,12 @@ Definition stats_cfg          := mkCfg LoopNone    true  ChNone     SendNever   
 Definition packetdump_cfg     := mkCfg LoopAtNew   true  ChUnbufSel SendOnTraffic false CloseIdem TNone    false false false.
 Definition pacing_cfg         := mkCfg LoopAtNew   true  ChBufNB    SendOnTraffic true  CloseIdem TNone    false false false.
 Definition pacing_unfixed_cfg := mkCfg LoopAtNew   true  ChBufNB    SendOnTraffic true  CloseRaw  TNone    false false false.
-Definition gcc_cfg            := mkCfg LoopAtNew   false ChBufNB    SendOnTraffic true  CloseIdem TNone    false false false.
+Definition gcc_cfg            := mkCfg LoopAtNew   true  ChBufNB    SendOnTraffic true  CloseIdem TNone    false false false.
 Definition gcc_unfixed_cfg    := mkCfg LoopAtNew   false ChBufNB    SendOnTraffic true  CloseRaw  TNone    false false false.
 Definition jitterbuffer_cfg   := mkCfg LoopNone    true  ChNone     SendNever     false CloseIdem TShared  true  false false.
 Definition flexfec_cfg        := mkCfg LoopNone    false ChNone     SendNever     false CloseIdem TPerSsrc true  true  false.
-Definition chain_cfg          := mkCfg LoopNone    false ChNone     SendNever     false CloseIdem TNone    false false false.
+(* chain.go forwards every call to its members in order; the instance checked is Chain [nack generator; report receiver] *)
+Definition chain_cfg          := mkCfg LoopOnBindW true  ChNone     SendNever     false CloseIdem TPerSsrc true  true  false.
 
 (* ---- canonical sequential schedule (used by the correspondence only) ----
    After every API call of a script "time passes": every loop finishes what it is writing; if the
